@@ -213,8 +213,17 @@ func foreignLayout(r *Run, real bool) {
 	}
 	w.Created[w.Index] = idx
 	tokenUsed := map[string]bool{}
+	prevTok := ""
 	for k, pk := range volPkts {
 		tok := c06Tokens[t.Draw(len(c06Tokens), "token")]
+		if k > 0 && t.Bool(1, 6, "case-twin-token") {
+			// a name that differs from the previous volume's only in the
+			// case of its letters
+			if tw := caseTwin(prevTok); tw != prevTok && !tokenUsed[tw] {
+				tok = tw
+				r.Probe("volume-names-differing-only-in-case")
+			}
+		}
 		if !real && hasGlobMeta(tok) && false {
 			tok = "x"
 		}
@@ -222,6 +231,7 @@ func foreignLayout(r *Run, real bool) {
 			tok += fmt.Sprint(k)
 		}
 		tokenUsed[tok] = true
+		prevTok = tok
 		if hasGlobMeta(tok) {
 			r.Probe("glob-metachar-in-token")
 		}
